@@ -321,7 +321,8 @@ CHECKS = {
              "with two regions; the viewer object cache is a chain of two per-viewer caches (the announced entry behind a stale entry of the first cache in every "
              "search; a cache sub-alphabet repeats the cached-update events with the chain fresh-first, disjoint and with equal entries); a region's viewer cache file is rewritten (CRC change, same CacheID) on every teardown "
              "and reloaded through the real load_cache() on re-track; marking dead a region that is registered but untracked while objects claim its handle is in "
-             "the alphabet. After every event the local-ID and full-ID indices, parent/child/orphan links, the avatar view, swallowed handler exceptions and "
+             "the alphabet; objects moved to an untracked region handle must stay in the session-wide full-ID index, with the harness holding no reference to "
+             "them. After every event the local-ID and full-ID indices, parent/child/orphan links, the avatar view, swallowed handler exceptions and "
              "request futures are compared with an independent scene-graph model. The scene-graph sub-alphabet for one region and the request sub-alphabet for one "
              "local ID are searched to saturation; the other searches are bounded (depth 3-6, at most 3 deviations), ~1.2 million transitions in the thorough tier.",
         note="Universe of 3 full IDs (one avatar), 3 local IDs per region (2 in two-region searches), 2 regions; local-ID and region symmetry reductions; at most 2 "
